@@ -179,6 +179,8 @@ macro_rules! by_shape {
             12 => $f::<P3>($arg),
             13 => $f::<Q6>($arg),
             15 => $f::<F3>($arg),
+            22 => $f::<FL>($arg),
+            23 => $f::<FN>($arg),
             _ => unreachable!(),
         }
     };
@@ -202,6 +204,8 @@ fn shape_fields(shape: u32) -> &'static [(&'static str, char)] {
         12 => &[("id", 'i'), ("name", 's'), ("flag", 'b')],
         13 => &[("n", 'i'), ("s", 's'), ("b", 'B'), ("e", 'E'), ("i", 'I'), ("c", 'C')],
         15 => &[("id", 'i'), ("name", 's'), ("flag", 'B')],
+        22 => &[("id", 'i'), ("name", 't'), ("tag", 'T'), ("kind", 'e'), ("c", 'c')],
+        23 => &[("s", 't'), ("n", 'i'), ("f", 'B')],
         _ => unreachable!(),
     }
 }
@@ -225,6 +229,8 @@ fn int_type(shape: u32, name: &str) -> (u32, bool) {
         (13, "n") => (64, false),
         (13, "i") => (8, true),
         (15, "id") => (32, false),
+        (22, "id") => (32, false),
+        (23, "n") => (16, false),
         _ => (8, false),
     }
 }
@@ -274,6 +280,12 @@ fn gen_value_for(rng: &mut Rng, shape: u32, name: &str, kind: char, careful: boo
         'b' => rng.pick_s(&["true", "false"]).to_string(),
         'c' => rng.pick_s(&["a", "é", "😀", "\u{0}", "%", "/"]).to_string(),
         'e' => rng.pick_s(COLORS).to_string(),
+        // a string that often looks like a number, a float or a boolean
+        't' => match rng.below(6) {
+            0 => gen_int_string(rng),
+            1 => rng.pick_s(&["7", "007", "-1", "3.14", "1e5", "inf", "nan", "NaN", "true", "false", "0", "+5", "1_000", "0x10", "18446744073709551616", "-9223372036854775809", ".5", "5.", "infinity", "-inf", "1e400"]).to_string(),
+            _ => gen_text(rng, 0, 3),
+        },
         _ => gen_text(rng, 0, 3),
     }
 }
@@ -305,7 +317,7 @@ fn gen_entries(rng: &mut Rng, shape: u32, allow_comps: bool) -> BTreeMap<String,
 }
 
 fn fm_streams(out: &mut Out, rng: &mut Rng, id: &mut u64, n: usize) {
-    const SHAPES: &[u32] = &[0, 1, 2, 3, 4, 5, 6, 7, 8, 9, 10, 11, 12, 0, 1, 0, 1];
+    const SHAPES: &[u32] = &[0, 1, 2, 3, 4, 5, 6, 7, 8, 9, 10, 11, 12, 0, 1, 0, 1, 22, 22, 23];
     for _ in 0..n {
         let shape = *rng.pick(SHAPES);
         let m = gen_entries(rng, shape, true);
